@@ -2901,3 +2901,34 @@ mod tests {
         );
     }
 }
+
+/// Verification hooks (add-only, compiled only with `--cfg fontc_verif`): thin wrappers that
+/// expose the private kerning cascade and group reconciliation to the correspondence harness.
+#[cfg(fontc_verif)]
+pub mod verif_hooks {
+    use std::collections::{BTreeMap, BTreeSet, HashMap};
+
+    use fontdrasil::{coords::NormalizedLocation, types::GlyphName};
+    use fontir::ir::{self, KernGroup, KerningInstance, KerningLocations};
+
+    use crate::orchestration::KernAdjustments;
+
+    /// `lookup_kerning_value` of one pair against one source's own kerning and groups
+    /// (the glyph -> group maps are built by `KernSource::new`, as the real caller does).
+    pub fn lookup_kerning_value(pair: &ir::KernPair, instance: &KerningInstance) -> f64 {
+        let source = super::KernSource::new(instance);
+        super::lookup_kerning_value(pair, source.kerns, &source.side1, &source.side2).into_inner()
+    }
+
+    /// `build_variable_kern_adjustments`, unchanged.
+    #[allow(clippy::type_complexity)]
+    pub fn build_variable_kern_adjustments(
+        ir_groups: &KerningLocations,
+        kern_by_pos: &HashMap<NormalizedLocation, KerningInstance>,
+    ) -> (
+        BTreeMap<KernGroup, BTreeSet<GlyphName>>,
+        BTreeMap<ir::KernPair, KernAdjustments>,
+    ) {
+        super::build_variable_kern_adjustments(ir_groups, kern_by_pos)
+    }
+}
